@@ -103,7 +103,57 @@ pub fn run(prop: &'static str, tier: Tier, seed: u64) -> i32 {
     for c in cases.iter().step_by(97).take(8) {
         rep.sample(json!({"case": c.label, "stream": "base seed s, request p replaced by each word of Λ", "example_word": "0xfffffffffffff800 (top 53 bits all ones)"}));
     }
+    if prop == "C05" {
+        words_part(&rep, tier, seed);
+    }
     rep.assume("rand 0.10 word->variate conversions are the trusted environment; next_u32 is served from the top 32 bits of a script word");
     rep.assume("two or more simultaneously adversarial words are outside the property's quantifier and not explored");
     rep.finish()
+}
+
+/// C05 part (a): exact expected word consumption of every law case under a coarse finite alphabet (engine T with
+/// loop closure): a parameter region where an acceptance rate collapses shows up as E[#words] of 10^2 - 10^6.
+fn words_part(rep: &Report, tier: Tier, seed: u64) {
+    use crate::tree::{Explorer, Grid, TreeCfg};
+    use rayon::prelude::*;
+    let (ma, _prs) = crate::prims::build_macros(1 << 10, 1 << 7);
+    let macros = std::sync::Mutex::new(ma);
+    let mut cases: Vec<Case> = all_cases(tier, seed).into_iter().filter(|c| c.in_law && c.law_note.is_empty()).collect();
+    let mut seen = std::collections::BTreeSet::new();
+    cases.retain(|c| seen.insert(format!("{}|{}|{:?}", c.family, c.fty, c.params)));
+    let grid = Grid { cps: vec![0.0], consecutive_int: false };
+    let res: Vec<(String, f64, f64, u64, usize)> = cases.par_iter().filter_map(|c| {
+        let s = (c.build)()?;
+        let mut cfg = TreeCfg::default();
+        cfg.lattice = vec![64, 16, 8, 4, 2];
+        cfg.macro_cells = vec![64, 16, 8, 4, 2];
+        cfg.tail_bits = 8;
+        cfg.exec_budget = 4_000_000;
+        cfg.deadline = Some(std::time::Instant::now() + std::time::Duration::from_secs(6));
+        let mut ex = Explorer::new(&*s, &grid, cfg, Some(&macros));
+        let r = ex.run(&[]);
+        let outputs = if c.family == "Dirichlet" { c.params.len().max(1) } else if c.family == "UnitSphere" || c.family == "UnitBall" { 3 } else if c.family.starts_with("Unit") { 2 } else { 1 };
+        Some((c.label.clone(), r.words, r.resid, ex.cnt.execs, outputs))
+    }).collect();
+    let mut execs = 0u64;
+    let mut judged = 0u64;
+    let mut worst: Vec<(f64, String)> = vec![];
+    for (label, words, resid, ex, outputs) in &res {
+        execs += ex;
+        if *resid > 0.5 {
+            continue; // not closable at this resolution (deep value chains): judged by the per-call cap of the deviation sweep only
+        }
+        judged += 1;
+        let per = words / *outputs as f64;
+        worst.push((per, label.clone()));
+        // a-priori constant: UnitBall needs 5.7 words, the published acceptance rates of MT, Cheng BB/BC, BTPE, H2PE, PD and the
+        // rejection-inversion samplers are all >= 0.25 with at most 4 words per attempt
+        if per > 32.0 {
+            rep.violation(format!("{}|expected-words|{}", label.split('<').next().unwrap_or(""), label), format!("{label}: expected number of RNG words per output is {per:.1} (> 32): an acceptance rate has collapsed"), serde_json::json!({"case": label, "expected_words_per_output": per, "residual": resid}));
+        }
+    }
+    worst.sort_by(|a, b| b.0.partial_cmp(&a.0).unwrap());
+    rep.set("expected_words_cases_judged", serde_json::json!(judged));
+    rep.set("expected_words_executions", serde_json::json!(execs));
+    rep.set("largest_expected_words_per_output", serde_json::json!(worst.iter().take(8).map(|w| serde_json::json!({"case": w.1, "words": w.0})).collect::<Vec<_>>()));
 }
